@@ -35,6 +35,36 @@ EDIF_UNSUPPORTED = ['(userData x)', '(portBundle pb (listOfPorts))', '(viewMap)'
                     '(parameter p)', '(symbol)', '(page p)', '(netBundle nb)']
 
 
+def edif_index(toks):
+    """(cells per library, cellRef sites) of an EDIF token list, by a scan that knows only the nesting.
+
+    cells: {library id (lower case): set of cell ids (lower case)};
+    sites: (position of the cell name token, position of the library name token or None, id of the enclosing library)
+    """
+    def name_at(i):
+        # NAME or ( rename NAME "original" )
+        if i < len(toks) and toks[i] == "(" and i + 2 < len(toks) and toks[i + 1].lower() == "rename":
+            return toks[i + 2].lower()
+        return toks[i].lower() if i < len(toks) else None
+    cells, sites = {}, []
+    cur = None
+    for i, t in enumerate(toks):
+        if t != "(" or i + 2 >= len(toks):
+            continue
+        kw = toks[i + 1].lower()
+        if kw in ("library", "external"):
+            cur = name_at(i + 2)
+            cells.setdefault(cur, set())
+        elif kw == "cell" and cur is not None:
+            cells[cur].add(name_at(i + 2))
+        elif kw == "cellref" and toks[i + 2] not in ("(", ")"):
+            lib_pos = None
+            if i + 5 < len(toks) and toks[i + 3] == "(" and toks[i + 4].lower() == "libraryref":
+                lib_pos = i + 5
+            sites.append((i + 2, lib_pos, cur))
+    return cells, sites
+
+
 def plan(r, fmt, ntok, nchar, kinds=None):
     """Draw one fault plan: a list of fault items."""
     kinds = kinds or ["truncate_tok", "truncate_char", "delete", "duplicate", "replace", "dangling", "unsupported",
@@ -49,6 +79,9 @@ def plan(r, fmt, ntok, nchar, kinds=None):
     if k == "replace":
         return [{"f": k, "at": r.randrange(max(1, ntok)), "src": r.randrange(max(1, ntok))}]
     if k == "dangling":
+        if r.random() < 0.3:
+            # a reference to something that IS declared, only not where the reference says
+            return [{"f": "dangling_swap", "n": r.randint(0, 50), "m": r.randint(0, 50), "how": r.choice(["library", "cell"])}]
         return [{"f": k, "n": r.randint(0, 50), "which": r.choice(EDIF_REFS)}]
     if k == "unsupported":
         return [{"f": k, "n": r.randint(0, 50), "what": r.randrange(len(EDIF_UNSUPPORTED))}]
@@ -92,6 +125,29 @@ def apply(fmt, text, plan_items):
                 toks[k + 1] = "zz_undeclared_%d" % it["n"]
                 changed = True
                 facts["applied"].append("dangling_" + it["which"])
+                facts["must_raise"] = True
+        elif f == "dangling_swap" and fmt == "edf":
+            cells, sites = edif_index(toks)
+            opts = []
+            for cell_pos, lib_pos, cur in sites:
+                x = toks[cell_pos].lower()
+                lib = toks[lib_pos].lower() if lib_pos is not None else cur
+                if it["how"] == "library" and lib_pos is not None:
+                    # another declared library that has no cell of this name
+                    for l2 in sorted(cells):
+                        if l2 != lib and x not in cells[l2]:
+                            opts.append((lib_pos, l2, "dangling_libraryref_swapped"))
+                elif it["how"] == "cell" and lib in cells:
+                    # a cell that exists, but in another library only
+                    for l2 in sorted(cells):
+                        for x2 in sorted(cells[l2]):
+                            if l2 != lib and x2 not in cells[lib]:
+                                opts.append((cell_pos, x2, "dangling_cellref_swapped"))
+            if opts:
+                pos, new_name, what = opts[(it["n"] * 51 + it["m"]) % len(opts)]
+                toks[pos] = new_name
+                changed = True
+                facts["applied"].append(what)
                 facts["must_raise"] = True
         elif f == "unsupported" and fmt == "edf":
             # insert an unsupported construct right after an "(interface" or "(contents" or "(cell ... (view"
